@@ -84,6 +84,8 @@ type Op struct {
 	// Oversize (publish): 1-based position of a message in the batch whose value is replaced by one byte more than a
 	// record can hold; the Publish must fail and leave a log that is still a log
 	Oversize int `json:"oversize,omitempty"`
+	// Split (with Oversize): the offending message has a key and a value of 33 MiB each instead of one value over the bound
+	Split bool `json:"split,omitempty"`
 	// Wipe (backup): empty and re-create the directory of the previous backup and back up into it again ("backup
 	// rotation": the same path, an empty directory)
 	Wipe bool `json:"wipe,omitempty"`
@@ -433,6 +435,12 @@ func (e *Env) noteLayout() {
 func (e *Env) applyRejectedPublish(op Op, msgs []klevdb.Message) {
 	j := op.Oversize - 1
 	msgs[j].Value = hugeValue()
+	if op.Split {
+		// neither the key nor the value is too big alone, together they are
+		msgs[j].Key = hugeValue()[:33<<20]
+		msgs[j].Value = hugeValue()[:33<<20]
+		e.St.Inc("publish_rejected_key_plus_value_too_big")
+	}
 	e.flag("rejected-publish")
 	if j > 0 {
 		e.flag("rejected-publish-mid-batch")
